@@ -75,7 +75,9 @@ def regenerate(ctx):
                        stdout=subprocess.PIPE, stderr=subprocess.PIPE, text=True)
     msg = (p.stdout + p.stderr).strip()
     ctx.log("translate: " + msg.replace("\n", " | "))
-    return p.returncode == 0, msg
+    # 0 = every generated file written; 3 = some files could not be regenerated and were replaced by files that do not
+    # compile (GEN-PARTIAL): only what depends on them stops checking; anything else = the translator itself failed
+    return ("ok" if p.returncode == 0 else "partial" if p.returncode == 3 else "failed"), msg
 
 
 def ensure_makefile():
@@ -101,6 +103,19 @@ def first_error(log):
     if m:
         return {"file": m.group(1), "line": int(m.group(2)), "error": m.group(3)[:1500]}
     return {"error": log[-1500:]}
+
+
+def stub_in_log(log):
+    """Does the build fail in a generated file that the translator replaced by its non-compiling stand-in?"""
+    for m in re.finditer(r'File "([^"]*Gen/[^"]+\.v)"', log):
+        path = m.group(1)
+        try:
+            with open(os.path.join(COQ_DIR, path) if not os.path.isabs(path) else path) as f:
+                if f.read(16).startswith("(* GEN-FAILED"):
+                    return True
+        except OSError:
+            pass
+    return False
 
 
 def theorem_at(path, line):
@@ -237,12 +252,15 @@ def run_check(mod, argv):
     discharged = 0
 
     with Lock():
-        ok, msg = regenerate(ctx)
-        if not ok:
+        gen_state, msg = regenerate(ctx)
+        if gen_state == "failed":
             breaks.append({"kind": "translator", "detail": msg})
         else:
             ok, log = build(ctx, mod.TARGETS)
-            if not ok:
+            if not ok and gen_state == "partial" and stub_in_log(log):
+                # this property's cone needs a file the translator could not regenerate
+                breaks.append({"kind": "translator", "detail": msg})
+            elif not ok:
                 err = first_error(log)
                 if "file" in err:
                     err["theorem"] = theorem_at(err["file"], err["line"])
